@@ -29,8 +29,8 @@ ASSUMPTIONS = [
 
 
 def plan(tier, seed):
-    n = 450 if tier == "quick" else 10000
-    return [{"name": "mp-%d" % p, "n": n} for p in range(12 if tier == "quick" else 16)]
+    n = 1500 if tier == "quick" else 25000
+    return [{"name": "mp-%d" % p, "n": n} for p in range(16)]
 
 
 def _v(ctx, call, fn, clause, what, extra=None):
